@@ -9,4 +9,34 @@ TEXT = {
         "note": "Theorems are about lean/Model/Path.lean; the tie is the `pure` correspondence stream (exhaustive short strings over a path-shaped alphabet incl. multi-byte runes + seeded random) against filepath.Clean/Join/Dir/Rel, IterateDirTree, LessFilePathSeparators and sort.Sort of both comparator types, plus the property oracle on the implementation. Trusted: Lean kernel, the model of path/filepath, sort.Sort returning a sorted permutation. Invalid UTF-8 is outside the model.",
         "technique": "Lean 4 proof (induction over strings/lists) + differential correspondence of the model against the Go code",
     },
+    "C05": {
+        "level": "Machine-checked proof (Lean 4), for every prefix string and every name string, all 16 path-taking methods: every path PrefixFS hands to its base is the prefix or component-wise inside it (prefix_confines); a refusal is always the escape error and issues no base call (rejected_is_escape, escaping_name_rejected); the lexical effective target of every created symlink stays inside for absolute prefixes and for relative targets (symlink_target_confined_partial). The remaining case (relative prefix + absolute target) is proved to FAIL (symlink_target_confined_full_fails) and is the open known finding K-relprefix-abslink.",
+        "design_ref": "DESIGN.md section 6, C05",
+        "note": "Theorems are about PrefixFS.translate in lean/Model/Layers.lean; tie: layers stream (all methods x prefixes x name spellings over a stub spy base: the recorded base call or refusal must equal translate's) + oracle on the implementation (component-wise containment of every recorded argument). Trusted: Lean kernel, model of filepath.Clean/Join/Rel/Dir (validated by the pure stream), the spy. Not covered by a theorem: symlinks already inside the prefix whose effective target changes when they are renamed.",
+        "technique": "Lean 4 proof over a call-translation model + differential correspondence with a spy base",
+    },
+    "C06": {
+        "level": "Machine-checked proof (Lean 4) of the lexical part for every hidden-path list, every name spelling, all methods: a name that is a hidden path or below one (component-wise, after cleaning) is never reported visible (isHidden_complete), hence never delegated (hidden_never_delegated, which also covers both names of Rename and the lexical effective target of Symlink); the error class is ErrNotExist for access/removal/metadata and ErrPermission for creating calls (hidden_refused, rename_refused, symlink_refused, refusal_classes); no base call is issued, so the outcome cannot depend on whether the entry exists. The clause 'by any route, including through symlinks' is NOT proved: it needs the OS model and is false of the code for link chains (see DESIGN.md, known finding K-hidden-symlink-route once the history streams cover it).",
+        "design_ref": "DESIGN.md section 6, C06",
+        "note": "Theorems are about HiddenFS.translate/isHidden in lean/Model/Layers.lean; tie: layers stream with a stub spy base (zero base calls + error class for hidden names; exact call otherwise). Comparable hypothesis = filepath.Rel can relate name and hidden path (always true when both are rooted).",
+        "technique": "Lean 4 proof over a call-translation model + differential correspondence with a spy base",
+    },
+    "C14": {
+        "level": "Machine-checked proof (Lean 4): for every non-empty stored prefix and every name whose cleaned form keeps no '..', each method delegates exactly the same call at join(prefix, clean(name)), absolute link targets re-rooted the same way, relative ones verbatim (reroot_exact); for absolute prefixes Symlink then Readlink returns the cleaned target, absolute or relative (symlink_readlink_roundtrip_abs/_rel); Readlink either returns the re-rooted remainder of a target inside the prefix or the cleaned text of a target outside it (readlink_no_leak). Not yet proved: File.Name/FileInfo.Name overrides (checked by correspondence and oracle only).",
+        "design_ref": "DESIGN.md section 6, C14",
+        "note": "Theorems about PrefixFS.translate/readlinkPost; tie: layers stream (exact base call, Readlink results for stored targets inside/at/beside the prefix, File.Name and FileInfo.Name against the model's reportedName). Relative prefixes: the round trip of absolute targets is exercised by correspondence only.",
+        "technique": "Lean 4 proof over a call-translation model + differential correspondence with a spy base",
+    },
+    "C15": {
+        "level": "Machine-checked proof (Lean 4) of the lexical part: 'hidden' implies component-wise inside some hidden path, so string-prefix siblings such as backups2 are never hidden (isHidden_sound, visible_of_outside); for visible names every method hands the base exactly the caller's arguments (nonhidden_delegates, arguments_unchanged; Create/Open as the OpenFile calls os.Create/os.Open make). Rename of an ancestor of a hidden path is excluded by hypothesis (refused on purpose, C11). RemoveAll on visible names is covered by the hidden-removeall stream (correspondence with the Lean program model), not by a theorem yet.",
+        "design_ref": "DESIGN.md section 6, C15",
+        "note": "Tie: layers stream over a stub spy base; oracle: for visible comparable names exactly one base call with unchanged arguments.",
+        "technique": "Lean 4 proof over a call-translation model + differential correspondence with a spy base",
+    },
+    "C18": {
+        "level": "Machine-checked proof (Lean 4): on a platform without volume names every VolumeFS method delegates the same call on the cleaned path, relative link targets unchanged and absolute ones cleaned, never refusing (volume_identity); Readlink returns the cleaned target (readlink_cleaned); no name override fires (names_pass_through). The volume-platform half of the property cannot be executed on the linux sandbox and is not claimed.",
+        "design_ref": "DESIGN.md section 6, C18",
+        "note": "Tie: layers stream with generated volume arguments (C:, UNC, empty, ...) over a stub spy base. Trusted: filepath.VolumeName is empty on linux (exercised, not proved).",
+        "technique": "Lean 4 proof over a call-translation model + differential correspondence with a spy base",
+    },
 }
